@@ -115,7 +115,7 @@ func (e *Encoder) Write(_ context.Context, f frame.Frame) error {
 // encoded with batches of rows stored in column-major order.
 type decodingReader struct {
 	dec     *gobDecoder
-	crc     hash.Hash32
+	crc     *countingHash32
 	scratch frame.Frame
 	buf     frame.Frame
 	err     error
@@ -133,7 +133,7 @@ func NewDecodingReader(r io.Reader) Reader {
 	// means of synchronizing stream positions, required for
 	// checksumming. Instead we fake an implementation of io.ByteReader,
 	// and take over the responsibility of ensuring that IO is buffered.
-	crc := crc32.NewIEEE()
+	crc := &countingHash32{Hash32: crc32.NewIEEE()}
 	if _, ok := r.(io.ByteReader); !ok {
 		r = bufio.NewReader(r)
 	}
@@ -149,7 +149,13 @@ func (d *decodingReader) Read(ctx context.Context, f frame.Frame) (n int, err er
 		d.crc.Reset()
 		if d.err = d.dec.Decode(&n); d.err != nil {
 			if d.err == io.EOF {
-				d.err = EOF
+				// The stream ends cleanly only if it ends exactly at a
+				// batch boundary, i.e., before any byte of a next batch.
+				if d.crc.n == 0 {
+					d.err = EOF
+				} else {
+					d.err = io.ErrUnexpectedEOF
+				}
 			}
 			return 0, d.err
 		}
@@ -188,14 +194,14 @@ func (d *decodingReader) decode(f frame.Frame) error {
 	for col := 0; col < f.NumOut(); col++ {
 		var codec bool
 		if err := d.dec.Decode(&codec); err != nil {
-			return err
+			return unexpectedEOF(err)
 		}
 		if codec && !f.HasCodec(col) {
 			return errors.New("column encoded with custom codec but no codec available on receipt")
 		}
 		if codec {
 			if err := f.Decode(col, d.dec); err != nil {
-				return err
+				return unexpectedEOF(err)
 			}
 			continue
 		}
@@ -212,10 +218,7 @@ func (d *decodingReader) decode(f frame.Frame) error {
 		v := reflect.NewAt(reflect.SliceOf(f.Out(col)), unsafe.Pointer(pHdr))
 		err := d.dec.DecodeValue(v)
 		if err != nil {
-			if err == io.EOF {
-				return EOF
-			}
-			return err
+			return unexpectedEOF(err)
 		}
 		// This is guaranteed by gob, but it seems worthy of some defensive programming here.
 		// It's also an extra check against the correctness of the codec.
@@ -226,12 +229,39 @@ func (d *decodingReader) decode(f frame.Frame) error {
 	sum := d.crc.Sum32()
 	var decoded uint32
 	if err := d.dec.Decode(&decoded); err != nil {
-		return err
+		return unexpectedEOF(err)
 	}
 	if sum != decoded {
 		return errors.E(errors.Integrity, fmt.Errorf("computed checksum %x but expected checksum %x", sum, decoded))
 	}
 	return nil
+}
+
+// unexpectedEOF translates io.EOF, which inside of a batch always
+// indicates a truncated or damaged stream, to io.ErrUnexpectedEOF so
+// that it cannot be mistaken for the end of the stream.
+func unexpectedEOF(err error) error {
+	if err == io.EOF {
+		return io.ErrUnexpectedEOF
+	}
+	return err
+}
+
+// countingHash32 is a hash.Hash32 that counts the bytes written to it
+// since it was last reset.
+type countingHash32 struct {
+	hash.Hash32
+	n int
+}
+
+func (h *countingHash32) Write(p []byte) (int, error) {
+	h.n += len(p)
+	return h.Hash32.Write(p)
+}
+
+func (h *countingHash32) Reset() {
+	h.n = 0
+	h.Hash32.Reset()
 }
 
 // readerByteReader is used to provide an (invalid) implementation of
